@@ -2394,7 +2394,15 @@ impl Reference
 			};
 		}
 
-		let member = member.map(|member| (member, value_type.clone()));
+		// The type of the member as seen from the assigned value, taking into
+		// account the steps that follow the member (e.g. `s.arr[0] = 5`).
+		let steps_after_member = steps
+			.iter()
+			.rposition(|step| step.get_member().is_some())
+			.map_or(&steps[..], |i| &steps[(i + 1)..]);
+		let member_type =
+			build_type_of_reference(value_type.clone(), steps_after_member, false);
+		let member = member.map(|member| (member, member_type));
 
 		let full_type = build_type_of_reference(value_type, &steps, false);
 		let assignment_error = match typer.put_symbol(base, full_type)
